@@ -3,7 +3,10 @@ use std::{fs::OpenOptions, io::Write};
 use emmylua_code_analysis::load_configs_raw;
 use lsp_types::Command;
 use serde_json::Value;
+#[cfg(not(feature = "verif-hooks"))]
 use tokio::sync::RwLock;
+#[cfg(feature = "verif-hooks")]
+use crate::verif::RwLock;
 
 use crate::context::{ServerContextSnapshot, WorkspaceManager};
 
